@@ -24,7 +24,7 @@ def run(chk):
         'result against BoolFun!PreimageF / ImageF. distinct_nontrivial = '
         'distinct (order, relation, quantifier, qvars[, rename]) rows')
     chk.mc('MC_BoolFun', 'MC_BoolFun.cfg')
-    chk.mc('MC_Rel', 'MC_Rel.cfg')       # the transcribed _image recursion refines PreimageC / ImageC
+    chk.mc('MC_Rel', 'MC_Rel.cfg' if q else 'MC_Rel_deep.cfg', timeout=5000)       # the transcribed _image recursion refines PreimageC / ImageC
     tasks = []
     tid = 13000000
     for o in (['a', 'b'], ['b', 'a']):
